@@ -5,8 +5,17 @@ def gen_arr(rng, maxops):
     n = rng.choice([3, 8, 20, 60, maxops])
     ops = []
     size = 0
-    mode = rng.choice(["mixed", "front-drain", "grow", "middle"])
+    mode = rng.choice(["mixed", "front-drain", "grow", "middle", "drain-alloc"])
     nextv = 1
+    if mode == "drain-alloc":
+        # fill exactly to an allocation size (4/8/16/32), empty from the front so that the
+        # offset reaches alloc_cnt, then carry on (every later insert used to fail)
+        k = rng.choice([4, 4, 8, 16, 32]) + rng.choice([0, 0, 0, -1, 1])
+        for _ in range(k):
+            ops.append("il:%d" % nextv); nextv += 1
+        ops += ["rf"] * k
+        ops.append(rng.choice(["il:%d", "if:%d", "ia:0:%d"]) % nextv); nextv += 1
+        size = 1
     for _ in range(n):
         r = rng.random()
         if mode == "front-drain" and size > 0 and r < 0.55:
@@ -19,7 +28,9 @@ def gen_arr(rng, maxops):
         elif c < 0.32:
             ops.append("if:%d" % nextv); nextv += 1; size += 1
         elif c < 0.5:
-            idx = rng.randint(0, size + (1 if rng.random() < 0.1 else 0))
+            # boundaries idx = cnt (append) and idx = cnt + 1 (first invalid index)
+            b = rng.random()
+            idx = size if b < 0.12 else size + 1 if b < 0.2 else rng.randint(0, size)
             ops.append("ia:%d:%d" % (idx, nextv)); nextv += 1
             if idx <= size:
                 size += 1
@@ -37,13 +48,30 @@ def gen_arr(rng, maxops):
         elif c < 0.96:
             ops.append(rng.choice(["first", "last"]))
         else:
-            ops.append("len")
+            ops.append(rng.choice(["len", "len", "ss:%d" % rng.choice([0, 1, 3, 4, 5, 8, 9, 16, 17, size, size + 1, max(0, size - 1)])]))
+    if rng.random() < 0.4:
+        ops.append("fin")
+    if rng.random() < 0.3:
+        # allocator refuses during some inserts: ENOMEM exactly when the block must grow
+        ops = [("!" + o) if (o[0] == "i" or o[:2] == "ss") and rng.random() < 0.25 else o for o in ops]
     return "arr|" + ";".join(ops)
+
+
+# case kinds of the container engine: kind -> generator(rng, maxops) -> case line.
+# Each container lives in gen/opsgen_<kind>.py (function gen_case); the quick/thorough mix is
+# balanced over the kinds.
+import importlib
+
+KINDS = {"arr": gen_arr}
+for _k in ("llist", "slist", "ht", "buf"):
+    KINDS[_k] = importlib.import_module("opsgen_" + _k).gen_case
 
 
 def gen(rng, tier, n):
     maxops = 120 if tier == "quick" else 600
+    kinds = sorted(KINDS)
     out = []
     for i in range(n):
-        out.append(gen_arr(rng, maxops))
+        k = kinds[i % len(kinds)]
+        out.append(KINDS[k](rng, maxops))
     return out
